@@ -95,7 +95,7 @@ SPACINGS = {
     "edge": (0.25, (0.0, 0.0)),
     "aniso": ((0.3, 0.45), (1.5, -2.25)),
 }
-SP_TIER = {"quick": ["coarse", "fine"],
+SP_TIER = {"quick": ["coarse", "fine", "aniso"],
            "thorough": ["coarse", "fine", "edge", "aniso"]}
 
 D_ALL = [1.0, -1.0, LAM_M / 8, 10.5, -10.5, 1e3]
@@ -107,6 +107,8 @@ PAIRS = {
     "mini": [(1.0, -1.0), (LAM_M / 8, 10.5), (-10.5, 1e3)],
     "five": [(1.0, -1.0), (LAM_M / 8, 10.5), (-10.5, 1e3), (1.0, 1.0),
              (-1.0, LAM_M / 8)],
+    "six": [(1.0, -1.0), (LAM_M / 8, 10.5), (-10.5, 1e3), (1.0, 1.0),
+            (-1.0, LAM_M / 8), (10.5, -10.5)],
 }
 COEFS = [(1.0, 1.0), (2.0, -3.0), (1 + 2j, -0.5j), (1e6, 1e-6)]
 LISTS = [[1, 2], [0, 1], [-1, 0, 1], [1.0], [0], [2, 1], [1, 0],
@@ -160,16 +162,16 @@ def cases(tier, seed):
             default = (i == 0)
             m = mode
             if default:
-                bp = "five" if q else "core"
+                bp = "five" if q else "six"
                 pp = [["all", 1], ["core", 2]] if q else \
                     [["all", 2], ["core", 4]]
             else:
                 bp = "mini"
                 pp = [["core", 2]] if q else [["core", 4]]
-                if sp == "edge":
-                    m = "sparse"
-            n = s[0] * s[1] if m == "full" else 11
-            nb = {"core": 20, "five": 13, "mini": 8}[bp]
+                if sp in ("edge", "aniso"):
+                    m = "probes"
+            n = s[0] * s[1] if m == "full" else (11 if m == "sparse" else 0)
+            nb = {"six": 15, "five": 13, "mini": 8}[bp]
             c = {"id": "group:shape=%s:sp=%s" % (_sid(s), sp),
                  "kind": "group", "shape": list(s), "mode": m, "sp": sp,
                  "tier": tier, "bpairs": bp, "ppairs": pp}
@@ -181,21 +183,20 @@ def cases(tier, seed):
         for i, sp in enumerate(["coarse"] if q else ["coarse", "fine"]):
             m = mode if i == 0 else "sparse"
             n = s[0] * s[1] if m == "full" else 11
-            ds = [1.0, -10.5] if (not q and i == 0) else [1.0]
-            ncoef = 3 if q else (len(COEFS) if i == 0 else 2)
+            ds = [1.0, -10.5] if (not q and m == "sparse") else [1.0]
+            ncoef = 2 if q else (len(COEFS) if i == 0 else 2)
             out.append({"id": "linear:shape=%s:sp=%s" % (_sid(s), sp),
                         "kind": "linear", "shape": list(s), "mode": m,
                         "sp": sp, "tier": tier, "ds": ds, "ncoef": ncoef,
                         "_cost": n * (2 + 2 * ncoef) + n * 4 * (len(ds) - 1)})
     # ---- lists: default (coarse, cfsp 0, filter off) + one deviation
     if q:
-        blocks = [["coarse", 0, False, 3, True], ["coarse", 3, LAM_M, 2, False],
+        blocks = [["coarse", 0, False, 2, True], ["coarse", 3, LAM_M, 2, False],
                   ["fine", 0, False, 2, False]]
     else:
         blocks = [["coarse", 0, False, 3, True], ["coarse", 3, LAM_M, 3, False],
                   ["coarse", 3, False, 3, False], ["coarse", 0, LAM_M, 3, False],
-                  ["coarse", 1, False, 3, False], ["fine", 0, False, 2, False],
-                  ["fine", 3, LAM_M, 2, False], ["edge", 0, False, 2, False],
+                  ["fine", 0, False, 2, False], ["fine", 3, LAM_M, 2, False],
                   ["aniso", 0, False, 2, False]]
     for s, mode in shapes:
         out.append({"id": "list:shape=%s" % _sid(s), "kind": "list",
@@ -205,9 +206,9 @@ def cases(tier, seed):
     # ---- options
     for s, mode in shapes:
         for i, sp in enumerate(["coarse"] if q else ["coarse", "fine"]):
-            m = mode if i == 0 else "sparse"
-            n = s[0] * s[1] if m == "full" else 11
-            fullc = [0, 2, 3, 5] if q else [0, 1, 2, 3, 4, 5]
+            m = mode if i == 0 else "probes"
+            n = s[0] * s[1] if m == "full" else (11 if m == "sparse" else 0)
+            fullc = [0, 2, 3, 5]
             out.append({"id": "opts:shape=%s:sp=%s" % (_sid(s), sp),
                         "kind": "opts", "shape": list(s), "mode": m,
                         "sp": sp, "tier": tier, "full_combos": fullc,
@@ -327,6 +328,8 @@ class Ctx:
         nx, ny = self.shape
         if mode == "full":
             return ["e(%d,%d)" % (i, j) for i in range(nx) for j in range(ny)]
+        if mode == "probes":
+            return []
         ii = sorted({0, nx // 2, nx - 1})
         jj = sorted({0, ny // 2, ny - 1})
         out = ["e(%d,%d)" % (i, j) for i in ii for j in jj]
@@ -872,7 +875,8 @@ def _run_opts(case, ck):
     names = basis + [p for p in probes if p not in basis]
     full = case["mode"] == "full"
     d0 = 1.0
-    dprobe = [-10.5, 1e3] if case["tier"] == "thorough" else [-10.5]
+    dprobe = [-10.5, 1e3] if (case["tier"] == "thorough" and
+                              case["sp"] == "coarse") else [-10.5]
     work = [(nm, d0) for nm in names] + \
         [(nm, d) for d in dprobe for nm in probes]
     pwork = [(nm, d0) for nm in probes] + \
